@@ -245,12 +245,21 @@ def eval_shard(path):
 def eval_cases(workdir):
     shards = sorted(glob.glob(os.path.join(workdir, "cases_*.v")))
     results, errors = [], []
+    failed = []
     with ThreadPoolExecutor(max_workers=16) as ex:
         for path, pairs, out in ex.map(eval_shard, shards):
             if pairs is None:
-                errors.append((path, out))
+                failed.append(path)
             else:
                 results.extend(pairs)
+    # a shard that could not be evaluated in the parallel pass (machine load: a killed or starved coqc) is
+    # evaluated once more on its own before it counts as an error
+    for path in failed:
+        path, pairs, out = eval_shard(path)
+        if pairs is None:
+            errors.append((path, out))
+        else:
+            results.extend(pairs)
     return results, errors
 
 
@@ -356,7 +365,11 @@ def main(argv):
 
     coqchk_note = None
     if ok_proofs and tier == "thorough" and not replay:
-        allowed_all = set(a for axs in cfg["theorems"].values() for a in axs) | set(cfg.get("coqchk_axioms", []))
+        # coqchk lists the axioms of every library in the loaded context (Coq's Reals, pulled in by
+        # Flocq through Value.v / VmFloat.v), whether or not a theorem depends on them: those four are
+        # allowed in the context; what each theorem depends on is decided by Print Assumptions above
+        from props import REALS_AXIOMS
+        allowed_all = set(a for axs in cfg["theorems"].values() for a in axs) | set(REALS_AXIOMS) | set(cfg.get("coqchk_axioms", []))
         okc, axc, txt = coqchk(prop_file, allowed_all)
         coqchk_note = "coqchk -o: %s; axioms of the loaded context: %s" % ("accepted" if okc else "REJECTED", axc or "<none>")
         notes.append(coqchk_note)
